@@ -223,4 +223,29 @@ def Chunk.Valid : Chunk → Prop
   | .run n _ => 2 ≤ n ∧ n ≤ 128
   | .lit bs => 1 ≤ bs.length ∧ bs.length ≤ 127
 
+/-! ### Implementation selection (`compression/__init__.py`)
+
+`try: from . import _rle as rle_impl` / `except ImportError: from . import rle as rle_impl`: the only
+configuration parameter is whether the compiled extension can be imported. The shape of that statement
+(one statement, what each branch imports, what is caught, nothing else executed, no name read in the
+handler before it is bound) is regenerated into `Generated/Rle.lean` and tied by `C05.selection_tied`. -/
+
+inductive Impl where
+  | compiled   -- psd_tools.compression._rle
+  | python     -- psd_tools.compression.rle
+  deriving DecidableEq, Repr
+
+def select (compiledImportable : Bool) : Impl := if compiledImportable then .compiled else .python
+
+def Impl.enc : Impl → Bytes → List UInt8
+  | .compiled => encC
+  | .python => encPy
+
+/-- decoder outcome in the compiled decoder's result type (the Python decoder cannot go out of bounds) -/
+def Impl.dec : Impl → Bytes → Nat → CRes
+  | .compiled => decC
+  | .python => fun e n => match decPy e n with
+    | .ok r => .ok r
+    | .error x => .err x
+
 end PsdVerif.Rle
